@@ -462,6 +462,25 @@ def run(ctx):
     from . import c02 as _c02
     _c02.check_labeled_extract(rep, facts, rule='R03.7')
     _c02.check_labeled_expand(rep, facts, rule='R03.7')
+    # R03.8: the shared secret is labelled with suite_id = "KEM" || I2OSP(kem_id, 2): each KEM announces the kem_id and Nsecret of
+    # RFC 9180 Table 2 for its own curve and KDF, and kem_suite_id lays that id out byte-exactly
+    impls = {im['self_ty']: im for im in facts.impls_of('kem::Kem')}
+    nt = 0
+    for kid, spec in sorted(rfc.KEMS.items()):
+        if spec['feature'] not in feats:
+            continue
+        st = spec['kem_mod'] + '::' + spec['ty']
+        im = impls.get(st)
+        if im is None:
+            rep.anchor_lost('R03.8', 'impl Kem for ' + st, 'the KEM of ' + spec['name'], 'not found')
+            continue
+        nt += 1
+        got = im['consts'].get('KEM_ID')
+        rep.check(got == kid, 'R03.8', st, 'kem-id', '0x%04x' % got if isinstance(got, int) else got, 'KEM_ID = 0x%04x for %s' % (kid, spec['name']), None)
+        ns = im['types'].get('NSecret', {}).get('usize')
+        rep.check(ns == spec['Nsecret'], 'R03.8', st, 'Nsecret', ns, 'Nsecret = %d' % spec['Nsecret'], None)
+    rep.floor('R03.8', 'KEM table entries', nt, nk)
+    _c02.check_suite_ids(rep, facts, rule='R03.8')
     g = get_an(facts, 'kem::Kem::gen_keypair')
     if g is not None:
         c18.check_gen_keypair(rep, facts, g, 'R03.4')
